@@ -125,4 +125,31 @@ Proof.
   rewrite (flow_f_same_no_T an _ _ v H). reflexivity.
 Qed.
 
+(* ---- the primary ---------------------------------------------------------------------------------------------
+   Both front ends: primary := the one passed, else reb_simulation_com (Jacobi coordinates as particles are added one by
+   one).  Python only (C: "jacobi_masses not yet implemented"): with jacobi_masses=True the primary's mass is REPLACED,
+   BEFORE a is computed from P and before M is computed from T, by
+        m0 * (m + Mint) / Mint - m        (m0 = particles[0].m, Mint = sum of all masses already in the simulation)
+   so that mu = G (m + primary.m) = G m0 (m + Mint)/Mint everywhere downstream: in P -> a, in T -> M, in
+   reb_particle_from_orbit_err / reb_particle_from_pal. *)
+Definition py_primary_mass (jm : bool) (pm0 m m0 Mint : T) : T :=
+  if jm then m0 * (m + Mint) / Mint - m else pm0.
+
+Definition with_pm (v : vals) (pm' : T) : vals :=
+  mkVals (vG v) (vt v) pm' (vm v) (va v) (vP v) (ve v) (vinc v) (vOmega v) (vomega v) (vpomega v)
+         (vf v) (vM v) (vE v) (vl v) (vtheta v) (vT v).
+
+Definition py_elements_jm (jm : bool) (m0 Mint : T) (afp : bool) (pe : peri) (an : anom) (v : vals) : list T :=
+  py_elements afp pe an (with_pm v (py_primary_mass jm (vpm v) (vm v) m0 Mint)).
+
+(* the Python flow with jacobi_masses is the C flow for the primary whose mass has been substituted FIRST *)
+Lemma flow_jm_same : forall jm m0 Mint afp pe an v,
+  pow_like_c (with_pm v (py_primary_mass jm (vpm v) (vm v) m0 Mint)) ->
+  (four * l_pi L * l_pi L = four * (l_pi L * l_pi L)) ->
+  py_elements_jm jm m0 Mint afp pe an v = c_elements afp pe an (with_pm v (py_primary_mass jm (vpm v) (vm v) m0 Mint)).
+Proof. intros. unfold py_elements_jm. apply flow_same; assumption. Qed.
+
+Lemma flow_jm_off : forall m0 Mint afp pe an v, py_elements_jm false m0 Mint afp pe an v = py_elements afp pe an v.
+Proof. intros. unfold py_elements_jm, py_primary_mass, with_pm. destruct v; reflexivity. Qed.
+
 End Flow.
